@@ -320,7 +320,7 @@ class TransportDescriptorParser:
 SerialTransportDescriptorParser = TransportDescriptorParser(
     "serial",
     [("device", (str, True))],
-    {'baudrate': (int, False), 'bytesize': (int, False),
+    {'baudrate': (int, True), 'bytesize': (int, False),
      'parity': (str, False),
      'stopbits': (float, False),
      'rtscts': (bool, False)}
